@@ -61,7 +61,48 @@ func runTextStrings(args []string) int {
 			V    int64    `json:"v"`
 			Open bool     `json:"open"`
 		}
-		if json.Unmarshal([]byte(s), &c) != nil || c.Kind != "dur" {
+		if json.Unmarshal([]byte(s), &c) != nil {
+			continue
+		}
+		if c.Kind == "arch" || c.Kind == "lay" {
+			var a struct {
+				Kind string             `json:"kind"`
+				S    []string           `json:"s"`
+				Ok   bool               `json:"ok"`
+				L    []map[string]int64 `json:"l"`
+			}
+			if json.Unmarshal([]byte(s), &a) != nil {
+				continue
+			}
+			n++
+			str := joinChars(a.S)
+			if a.Kind == "lay" {
+				// printing: the real list prints as the specification says, and parses back to itself
+				var l wt.ArchiveInfoList
+				for _, e := range a.L {
+					l = append(l, wt.NewArchiveInfo(wt.Duration(e["step"]), uint32(e["n"])))
+				}
+				if got := l.String(); got != str && len(viols) < 40 {
+					viols = append(viols, violation{Prop: "C19", What: "ArchiveInfoList.String", Detail: fmt.Sprintf("%v prints as %q, specification says %q", a.L, got, str),
+						Line: map[string]interface{}{"l": a.L}})
+				}
+			}
+			p, err := wt.ParseArchiveInfoList(str)
+			same := err == nil && len(p) == len(a.L)
+			if same {
+				for i, e := range layJSON(p) {
+					if e["step"] != a.L[i]["step"] || e["n"] != a.L[i]["n"] {
+						same = false
+					}
+				}
+			}
+			if ((err == nil) != a.Ok || (a.Ok && !same)) && len(viols) < 40 {
+				viols = append(viols, violation{Prop: "C19", What: "ParseArchiveInfoList", Detail: fmt.Sprintf("%q -> %v (err=%v), specification says ok=%v %v", str, layJSON(p), err, a.Ok, a.L),
+					Line: map[string]interface{}{"s": str}})
+			}
+			continue
+		}
+		if c.Kind != "dur" {
 			continue
 		}
 		n++
@@ -210,6 +251,10 @@ func runDriveText(args []string) int {
 			l = append(l, wt.NewArchiveInfo(wt.Duration(st), uint32(np)))
 			prevN, prevR = np, r
 			st *= r
+		}
+		if i%7 == 3 {
+			// a single archive of one point: valid, prints as "step:step"
+			l = wt.ArchiveInfoList{wt.NewArchiveInfo(wt.Duration(steps[rnd.Intn(len(steps))]*int64(1+rnd.Intn(3))), 1)}
 		}
 		if len(l) == 0 {
 			continue
